@@ -1,6 +1,7 @@
 package compress
 
 import (
+	"fmt"
 	"io"
 
 	"github.com/andybalholm/brotli"
@@ -23,6 +24,14 @@ func (br *BrotliReader) Read(p []byte) (n int, err error) {
 	if br.br == nil {
 		br.br = brotli.NewReader(br.Body)
 	}
+	// The decoder indexes out of range on some corrupt streams: what a
+	// server sends must surface as a read error, not crash the caller.
+	defer func() {
+		if r := recover(); r != nil {
+			n, err = 0, fmt.Errorf("brotli: corrupt input: %v", r)
+			br.berr = err
+		}
+	}()
 	n, err = br.br.Read(p)
 	if err != nil {
 		// brotli.Reader does not remember its errors: a failed Read would be
